@@ -9,7 +9,7 @@ import (
 )
 
 // useModel switches the correspondence half (model vs implementation) on.
-const useModel = false
+const useModel = true
 
 func init() {
 	corr.RegisterArea("pubsub", Run)
